@@ -114,8 +114,8 @@ func C18(e *core.Env) {
 		return p
 	}
 	type named struct{ name, text string }
-	profiles := []named{{"min", PoolProfileMin}, {"levels", PoolProfileLevels}, {"broken", PoolProfileBroken}, {"badyaml", PoolProfileBadYaml}}
-	datas := []named{{"good", PoolDataGood}, {"bad", PoolDataBad}, {"empty", PoolDataEmpty}, {"garbage", PoolDataGarbage}, {"truncated", PoolDataTruncated}}
+	profiles := []named{{"min", PoolProfileMin}, {"levels", PoolProfileLevels}, {"special", PoolProfileSpecial}, {"broken", PoolProfileBroken}, {"badyaml", PoolProfileBadYaml}}
+	datas := []named{{"good", PoolDataGood}, {"bad", PoolDataBad}, {"special", PoolDataSpecial}, {"empty", PoolDataEmpty}, {"garbage", PoolDataGarbage}, {"truncated", PoolDataTruncated}}
 	root := os.Geteuid() == 0
 	if root {
 		res.Note("running as root: a read-only prior file cannot be made unwritable, so the read-only prior state is exercised as a directory only")
